@@ -14,7 +14,7 @@ import math
 import time
 from fractions import Fraction
 
-from sympy import QQ
+from sympy import QQ, ZZ
 from sympy.polys.rings import ring as _ring
 
 from . import terms as tm
@@ -22,14 +22,17 @@ from .ring import GaveUp, TrigRewriter, time_limit
 
 
 class El:
-    __slots__ = ("P", "d")
+    __slots__ = ("P", "d", "q")
 
-    def __init__(self, P, d):
-        self.P = P
+    def __init__(self, P, d, q=1):
+        self.P = P  # polynomial over ZZ
         self.d = d  # dict {denominator index: exponent > 0}
+        self.q = q  # positive integer denominator
 
 
 class Tower:
+    """value of El = P / (q * prod_j D_j^d[j]);  all polynomial arithmetic is over ZZ (python ints: fast)"""
+
     def __init__(self, roots, budget_s=60.0, rewrite_trig=True):
         self.t0 = time.time()
         self.budget = budget_s
@@ -47,18 +50,38 @@ class Tower:
             if t.op in ("v", "pi", "sqrt", "f"):
                 self.atom_terms.append(t)
         names = ["g%d" % i for i in range(len(self.atom_terms))] or ["g_dummy"]
-        R = _ring(names, QQ)
+        R = _ring(names, ZZ)
         self.R = R[0]
         self.gens = list(R[1:])
         self.gidx = {a.id: i for i, a in enumerate(self.atom_terms)}
         self.rad = {}  # generator index -> radicand El
         self.rad_order = []
-        self.dens = []  # registered denominator polynomials (radical-free, non-constant)
+        self.dens = []  # registered denominator polynomials (radical-free, primitive, positive leading coefficient)
         self.den_key = {}
         self.elem = {}
         self.atom_of_gen = {i: a for i, a in enumerate(self.atom_terms)}
         self.one = self.R(1)
+        import random as _random
+
+        rr = _random.Random(len(self.atom_terms) * 7919 + 13)
+        self.pt = [rr.randrange(2**20, 2**21) for _ in names]
+        self.den_val = []
         self._build()
+
+    def _eval_int(self, P):
+        pt = self.pt
+        tot = 0
+        pw = {}
+        for m, c in P.iterterms():
+            v = int(c)
+            for gi, e in enumerate(m):
+                if e:
+                    k = (gi, e)
+                    if k not in pw:
+                        pw[k] = pt[gi] ** e
+                    v *= pw[k]
+            tot += v
+        return tot
 
     # ------------------------------------------------------------------ basics
     def _tick(self):
@@ -66,7 +89,7 @@ class Tower:
             raise GaveUp("tower normaliser over budget (%.0fs)" % self.budget)
 
     def const(self, q):
-        return El(self.R(QQ(q.numerator, q.denominator)), {})
+        return El(self.R(q.numerator), {}, q.denominator)
 
     def _dprod(self, dexp):
         p = self.one
@@ -75,23 +98,35 @@ class Tower:
                 p = p * self.dens[j] ** e
         return p
 
-    def _normalize(self, P, d):
-        """cancel registered denominators that divide the numerator exactly (cheap partial cancellation)"""
+    def _normalize(self, P, d, q):
+        """cancel registered denominators that divide the numerator exactly, and the integer content against q"""
         if P == 0:
-            return El(P, {})
+            return El(P, {}, 1)
         d = {j: e for j, e in d.items() if e > 0}
+        pv = None
         for j in list(d):
             D = self.dens[j]
             while d.get(j, 0) > 0:
                 self._tick()
-                q, r = P.div(D)
+                # necessary condition for D | P in ZZ[x] (D primitive): D(pt) | P(pt) at an integer point
+                if pv is None:
+                    pv = self._eval_int(P)
+                if self.den_val[j] == 0 or pv % self.den_val[j] != 0:
+                    break
+                qq, r = P.div(D)
                 if r != 0:
                     break
-                P = q
+                P = qq
+                pv = None
                 d[j] -= 1
             if d.get(j) == 0:
                 del d[j]
-        return El(P, d)
+        if q != 1:
+            g = math.gcd(int(P.content()), q)
+            if g > 1:
+                P = P.quo_ground(g)
+                q //= g
+        return El(P, d, q)
 
     def add(self, a, b):
         if a.P == 0:
@@ -102,11 +137,12 @@ class Tower:
         common = {j: max(a.d.get(j, 0), b.d.get(j, 0)) for j in keys}
         fa = self._dprod({j: common[j] - a.d.get(j, 0) for j in keys})
         fb = self._dprod({j: common[j] - b.d.get(j, 0) for j in keys})
-        P = a.P * fa + b.P * fb
-        return self._normalize(P, common)
+        g = math.gcd(a.q, b.q)
+        P = (a.P * fa).mul_ground(b.q // g) + (b.P * fb).mul_ground(a.q // g)
+        return self._normalize(P, common, a.q // g * b.q)
 
     def neg(self, a):
-        return El(-a.P, a.d)
+        return El(-a.P, a.d, a.q)
 
     def _split(self, P, gi):
         parts = {}
@@ -123,7 +159,7 @@ class Tower:
                 md = m[gi]
         return md
 
-    def reduce(self, P, d):
+    def reduce(self, P, d, q=1):
         """rewrite s^2 -> N for all radicals (youngest first); returns El"""
         for gi in reversed(self.rad_order):
             self._tick()
@@ -134,7 +170,7 @@ class Tower:
             hmax = md // 2
             parts = self._split(P, gi)
             g = self.gens[gi]
-            Nd = self._dprod(N.d)
+            Nd = self._dprod(N.d).mul_ground(N.q)
             acc = self.R(0)
             for dg, c in parts.items():
                 h, par = divmod(dg, 2)
@@ -146,15 +182,16 @@ class Tower:
             d = dict(d)
             for j, e in N.d.items():
                 d[j] = d.get(j, 0) + e * hmax
-        return self._normalize(P, d)
+            q = q * N.q**hmax
+        return self._normalize(P, d, q)
 
     def mul(self, a, b):
         if a.P == 0 or b.P == 0:
-            return El(self.R(0), {})
+            return El(self.R(0), {}, 1)
         d = dict(a.d)
         for j, e in b.d.items():
             d[j] = d.get(j, 0) + e
-        return self.reduce(a.P * b.P, d)
+        return self.reduce(a.P * b.P, d, a.q * b.q)
 
     def _youngest_rad(self, P):
         for gi in reversed(self.rad_order):
@@ -163,21 +200,23 @@ class Tower:
         return None
 
     def _register_den(self, P):
-        """P radical-free, non-constant polynomial -> (index, constant c) with P = c * D_index"""
-        c = P.LC
+        """P radical-free, non-constant ZZ polynomial -> (index, integer c) with P = c * D_index, D primitive, LC(D) > 0"""
+        c = int(P.content())
+        if P.LC < 0:
+            c = -c
         Pm = P.quo_ground(c)
-        key = Pm
-        j = self.den_key.get(key)
+        j = self.den_key.get(Pm)
         if j is None:
             j = len(self.dens)
             self.dens.append(Pm)
-            self.den_key[key] = j
+            self.den_val.append(self._eval_int(Pm))
+            self.den_key[Pm] = j
         return j, c
 
     def inv(self, a):
         if a.P == 0:
             raise GaveUp("division by an identically zero term")
-        num = El(self._dprod(a.d), {})
+        num = El(self._dprod(a.d).mul_ground(a.q), {}, 1)
         P = a.P
         while True:
             self._tick()
@@ -188,54 +227,61 @@ class Tower:
             A = parts.get(0, self.R(0))
             B = parts.get(1, self.R(0))
             g = self.gens[gi]
-            num = self.mul(num, El(A - B * g, {}))
+            num = self.mul(num, El(A - B * g, {}, 1))
             N = self.rad[gi]
-            # A^2 - B^2 N  with N = N.P / prod(D^N.d)
-            Nd = self._dprod(N.d)
-            nn = self.reduce(A * A * Nd - B * B * N.P, {})
+            Nd = self._dprod(N.d).mul_ground(N.q)
+            # (A^2 - B^2 N) * Nd  =  A^2 Nd - B^2 N.P
+            nn = self.reduce(A * A * Nd - B * B * N.P, {}, 1)
             if nn.P == 0:
                 raise GaveUp("zero divisor: a radicand is a hidden square in the lower tower")
-            # 1/(nn.P / (Nd * prod D^nn.d))  -> multiply numerator by Nd * prod(D^nn.d)
-            num = self.mul(num, El(Nd * self._dprod(nn.d), {}))
+            # 1/P = conj / (A^2 - B^2 N) = conj * Nd / (nn)  and  1/nn = nn.q * prod(D^nn.d) / nn.P
+            num = self.mul(num, El((Nd * self._dprod(nn.d)).mul_ground(nn.q), {}, 1))
             P = nn.P
         if P.is_ground:
-            c = P.LC
-            return El(num.P.quo_ground(c), num.d)
+            c = int(P.LC)
+            if c < 0:
+                return self._normalize(-num.P, num.d, num.q * (-c))
+            return self._normalize(num.P, num.d, num.q * c)
         j, c = self._register_den(P)
         d = dict(num.d)
         d[j] = d.get(j, 0) + 1
-        return self._normalize(num.P.quo_ground(c), d)
+        if c < 0:
+            return self._normalize(-num.P, d, num.q * (-c))
+        return self._normalize(num.P, d, num.q * c)
 
-    def equal(self, a, b):
+    def _cross(self, a, b):
         keys = set(a.d) | set(b.d)
         fa = self._dprod({j: max(b.d.get(j, 0) - a.d.get(j, 0), 0) for j in keys})
         fb = self._dprod({j: max(a.d.get(j, 0) - b.d.get(j, 0), 0) for j in keys})
-        return a.P * fa == b.P * fb
+        return (a.P * fa).mul_ground(b.q), (b.P * fb).mul_ground(a.q)
+
+    def equal(self, a, b):
+        L, Rr = self._cross(a, b)
+        return L == Rr
 
     def ratio_const(self, a, b):
         """a / b if it is a rational constant, else None"""
         if a.P == 0 or b.P == 0:
             return None
-        keys = set(a.d) | set(b.d)
-        fa = self._dprod({j: max(b.d.get(j, 0) - a.d.get(j, 0), 0) for j in keys})
-        fb = self._dprod({j: max(a.d.get(j, 0) - b.d.get(j, 0), 0) for j in keys})
-        L, Rr = a.P * fa, b.P * fb
+        if len(a.P) * (1 if not b.d else 4) > 4000:
+            return None
+        L, Rr = self._cross(a, b)
         if len(L) != len(Rr):
             return None
-        c = L.LC / Rr.LC
-        if L == Rr.mul_ground(c):
-            return Fraction(int(c.numerator), int(c.denominator))
+        c = Fraction(int(L.LC), int(Rr.LC))
+        if L.mul_ground(c.denominator) == Rr.mul_ground(c.numerator):
+            return c
         return None
 
     # ------------------------------------------------------------------ construction
     def _new_radical(self, t, N):
-        one = El(self.one, {})
+        one = El(self.one, {}, 1)
         if N.P == 0:
-            return El(self.R(0), {})
+            return El(self.R(0), {}, 1)
         if self.equal(N, one):
             return one
         if N.P.is_ground and not N.d:
-            c = Fraction(int(N.P.LC.numerator), int(N.P.LC.denominator))
+            c = Fraction(int(N.P.LC), N.q)
             if c > 0:
                 rn, rd = math.isqrt(c.numerator), math.isqrt(c.denominator)
                 if rn * rn == c.numerator and rd * rd == c.denominator:
@@ -247,11 +293,11 @@ class Tower:
             if c is not None and c > 0:
                 rn, rd = math.isqrt(c.numerator), math.isqrt(c.denominator)
                 if rn * rn == c.numerator and rd * rd == c.denominator:
-                    return El(self.gens[gj].mul_ground(QQ(rn, rd)), {})
+                    return El(self.gens[gj].mul_ground(rn), {}, rd)
         gi = self.gidx[t.id]
         self.rad[gi] = N
         self.rad_order.append(gi)
-        return El(self.gens[gi], {})
+        return El(self.gens[gi], {}, 1)
 
     def _build(self):
         el = self.elem
@@ -261,7 +307,7 @@ class Tower:
             if op == "c":
                 el[t.id] = self.const(t.args[0])
             elif op in ("v", "pi"):
-                el[t.id] = El(self.gens[self.gidx[t.id]], {})
+                el[t.id] = El(self.gens[self.gidx[t.id]], {}, 1)
             elif op == "+":
                 el[t.id] = self.add(el[t.args[0].id], el[t.args[1].id])
             elif op == "*":
@@ -274,12 +320,12 @@ class Tower:
                 el[t.id] = self._new_radical(t, el[t.args[0].id])
             elif op == "f":
                 gi = self.gidx[t.id]
-                el[t.id] = El(self.gens[gi], {})
+                el[t.id] = El(self.gens[gi], {}, 1)
                 if t.args[0] == "sinu":
                     c = tm.fn("cosu", t.args[1])
                     if c.id in self.gidx:
                         cg = self.gens[self.gidx[c.id]]
-                        self.rad[gi] = El(1 - cg * cg, {})
+                        self.rad[gi] = El(1 - cg * cg, {}, 1)
                         self.rad_order.append(gi)
             else:
                 raise GaveUp("op %s" % op)
@@ -307,7 +353,7 @@ class Tower:
             for g, e in facs:
                 p = tm.pow_(g, e)
                 mono = p if mono is None else tm.mul(mono, p)
-            cq = tm.const(Fraction(int(c.numerator), int(c.denominator)))
+            cq = tm.const(Fraction(int(c)))
             t = cq if mono is None else tm.mul(mono, cq)
             acc = tm.add(acc, t)
         return acc
@@ -315,6 +361,8 @@ class Tower:
     def to_term(self, e, memo=None):
         memo = {} if memo is None else memo
         n = self.poly_term(e.P, memo)
+        if e.q != 1:
+            n = tm.mul(n, tm.const(Fraction(1, e.q)))
         if not e.d:
             return n
         den = None
@@ -327,12 +375,48 @@ class Tower:
         return tm.div(n, den)
 
 
-def is_zero(term, budget_s=60.0):
+def _manifestly_positive(tw, D):
+    """all coefficients > 0, every monomial a product of even powers of atoms and any powers of sqrt generators,
+    and a constant term present  =>  D > 0 everywhere"""
+    has_const = False
+    for m, c in D.iterterms():
+        if c <= 0:
+            return False
+        if not any(m):
+            has_const = True
+        for gi, e in enumerate(m):
+            if e % 2 and not (tw.atom_of_gen[gi].op == "sqrt"):
+                return False
+    return has_const
+
+
+def sign_term(tw, e, memo=None):
+    """a term with the same sign (and the same zero set) as the element e: manifestly positive denominators are dropped,
+    the others are kept to the power (exponent mod 2) -- multiplying by an even power of a non-zero quantity"""
+    memo = {} if memo is None else memo
+    n = tw.poly_term(e.P, memo)
+    keep = None
+    for j, k in sorted(e.d.items()):
+        if _manifestly_positive(tw, tw.dens[j]):
+            continue
+        # n / D^k has the sign of n * D^(k mod 2) only where D != 0; keep an honest division instead
+        key = ("den", j)
+        if key not in memo:
+            memo[key] = tw.poly_term(tw.dens[j], memo)
+        p = tm.pow_(memo[key], k)
+        keep = p if keep is None else tm.mul(keep, p)
+    return n if keep is None else tm.div(n, keep)
+
+
+def is_zero(term, budget_s=60.0, control=None):
+    """control: a term that must NOT normalise to zero (negative control sharing all sub-computations)"""
     t0 = time.time()
     try:
         with time_limit(budget_s):
-            tw = Tower([term], budget_s)
+            tw = Tower([term] + ([control] if control is not None else []), budget_s)
             e = tw.root_elems()[0]
+            if control is not None and e.P == 0 and tw.root_elems()[1].P == 0:
+                return "unsound", {"reason": "negative control normalised to zero", "time_s": time.time() - t0}
         return ("zero" if e.P == 0 else "nonzero"), {"atoms": len(tw.atom_terms), "radicals": len(tw.rad_order),
                                                      "denominators": len(tw.dens), "time_s": time.time() - t0,
                                                      "side_conditions": tw.side_conditions}
@@ -375,7 +459,7 @@ def simplify_formula(f, budget_s=15.0):
                     with time_limit(budget_s):
                         tw = Tower([d], budget_s, rewrite_trig=False)
                         e = tw.root_elems()[0]
-                        nt = tw.to_term(e)
+                        nt = sign_term(tw, e)
                     new = {"<": tm.lt, "<=": tm.le, "==": tm.eq}[t.op](nt, tm.ZERO)
                 except GaveUp:
                     new = t
